@@ -305,7 +305,7 @@ def write_side(conv, wire_bits: int, kind: str):
         if iss.startswith("T-wallclock"):
             out.append(("T-epoch", iss[13:], "wall-clock field"))
     if q.carrier != "int":
-        out.append(("T-int", f"conversion does not end in an integer: {q.show()}", q.ops[-1]))
+        out.append(("T-int", f"conversion does not end in an integer: {q.show()}", q.ops[-1] if q.ops else ""))
     elif q.unit not in ("ms", None):
-        out.append(("T-unit", f"conversion yields unit {q.unit}, the wire carries milliseconds: {q.show()}", q.ops[-1]))
+        out.append(("T-unit", f"conversion yields unit {q.unit}, the wire carries milliseconds: {q.show()}", q.ops[-1] if q.ops else ""))
     return q, out
